@@ -459,6 +459,14 @@ pub async fn execute(case: &Case, faults: Vec<Fault>) -> RunOut {
             }
         }
     }
+    // A fault that fired late (e.g. on a ping frame shortly before the horizon) is judged only
+    // after its own bound has passed.
+    if let Some(need) = bound.iter().flatten().max().copied() {
+        let now = link.now_ms();
+        if need >= now {
+            tokio::time::sleep(std::time::Duration::from_millis(need - now + 100)).await;
+        }
+    }
     let rd = run_done.lock().unwrap().clone();
     let mut term_ms: [Option<u64>; 2] = [None, None];
     for e in 0..2usize {
